@@ -209,6 +209,10 @@ def run(ctx):
             inst = rules.PUZZLES[name].gen(rng, thorough and rng.random() < 0.25)
             with ctx.guard(120):
                 judge(ctx, name, inst)
+            if (name == "star_battle" and inst.get("n", 0) >= 8) or (name == "putteria" and inst["h"] * inst["w"] >= 16):
+                # large boards of the two puzzles that have an exact large-board truth but no planter: full models to the validator too
+                with ctx.guard(90):
+                    sample_models(ctx, name, inst, 2, "random")
             if t == 0 and ctx.shard == 0 and name in ("slitherlink", "heyawake"):
                 ctx.sample({"puzzle": name, "instance": inst})
     if ctx.shard % 4 == 0:
